@@ -151,10 +151,81 @@ def any_games(draw, min_states=3, max_states=8, max_actions=3, dyadic=True, max_
 
 
 def copy_game(game):
-    """Deep copy preserving list/tuple structure (cheaper than copy.deepcopy)."""
-    return dict(rewards=list(game["rewards"]), players=list(game["players"]),
-                transition_list=[list(l) if isinstance(l, list) else l for l in game["transition_list"]],
+    """Deep copy preserving list/tuple structure AND sharing of list objects between states
+    (cheaper than copy.deepcopy)."""
+    memo = {}
+    tl = []
+    for l in game["transition_list"]:
+        if isinstance(l, list):
+            c = memo.get(id(l))
+            if c is None:
+                c = memo[id(l)] = list(l)
+            tl.append(c)
+        else:
+            tl.append(l)
+    return dict(rewards=list(game["rewards"]), players=list(game["players"]), transition_list=tl,
                 final_states=list(game["final_states"]))
+
+
+def apply_alias(game, alias):
+    """Return a copy of `game` in which, for every pair (i, j) in alias, state j's transition list
+    IS state i's list object (a legal way to write a description down in Python)."""
+    g = copy_game(game)
+    for i, j in alias or ():
+        g["transition_list"][j] = g["transition_list"][i]
+    return g
+
+
+def tiny_reach_games():
+    """Planted: states whose reachability value is positive but tiny (1e-9 .. 1e-6): not 'dead'.
+    0: initial; 1: final; 2: sink; 3 = X (small chance to go on to Y), 4 = Y (small chance to win);
+    5: a genuinely dead sibling so that pruning has something to remove."""
+    for e1, e2 in ((1e-4, 1e-3), (1e-3, 1e-3), (1e-2, 1e-5), (1e-5, 1e-4), (0.5, 1e-6), (1e-3, 5e-4)):
+        for owner0 in (PR, P1, P2):
+            for rx, ry in ((3, 5), (0, 7), (2.5, 0)):
+                if owner0 == PR:
+                    t0 = [(0.25, 1), (0.5, 3), (0.25, 5)]
+                elif owner0 == P1:
+                    t0 = [("a", 3), ("b", 5)]
+                else:
+                    t0 = [("a", 3), ("b", 1)]
+                yield dict(rewards=[1, 0, 0, rx, ry, 4],
+                           players=[owner0, PR, PR, PR, PR, PR],
+                           transition_list=[t0, [(1, 1)], [(1, 2)], [(e1, 4), (1 - e1, 2)], [(e2, 1), (1 - e2, 2)],
+                                            [(0.5, 5), (0.5, 2)]],
+                           final_states=[1])
+
+
+@st.composite
+def twin_games(draw, **kw):
+    """A stopping game in which a Player 1 state and a Player 2 state have EQUAL transition lists
+    (and, for half of the cases, share the same list object): the twin of a player state `a` gets
+    the other owner and a's successors, and is wired in below one of a's predecessors."""
+    g = draw(stopping_games(**kw))
+    n = len(g["players"])
+    cands = [s for s in range(n) if g["players"][s] in (P1, P2) and not all(t == s for _, t in g["transition_list"][s])]
+    if not cands:
+        return dict(game=g, alias=[])
+    a = draw(st.sampled_from(cands))
+    twin = n
+    g = copy_game(g)
+    g["players"].append(P2 if g["players"][a] == P1 else P1)
+    g["rewards"].append(draw(st.sampled_from(REWARD_POOL)))
+    g["transition_list"].append(list(g["transition_list"][a]))
+    preds = [s for s in range(n) if s != a and any(t == a for _, t in g["transition_list"][s])]
+    if preds:
+        l = draw(st.sampled_from(preds))
+        lst = g["transition_list"][l]
+        k = [i for i, (_, t) in enumerate(lst) if t == a][0]
+        if g["players"][l] == PR:
+            p = lst[k][0]
+            lst[k] = (p / 2, a)
+            lst.insert(draw(st.integers(0, len(lst))), (p / 2, twin))
+        elif len(lst) < len(NAMES):
+            used = {x for x, _ in lst}
+            lst.insert(draw(st.integers(0, len(lst))), ([x for x in NAMES if x not in used][0], twin))
+    alias = [[a, twin]] if draw(st.booleans()) else []
+    return dict(game=g, alias=alias)
 
 
 def game_stats(game):
